@@ -267,8 +267,12 @@ def run(rep: Report) -> None:
         fi = prog.functions[q[0]]
         rets = [n for n in ast.walk(fi.node) if isinstance(n, ast.Return) and n.value is not None]
         ps = fi.params()
-        ok = all(isinstance(r.value, ast.Call) and ast.unparse(r.value.func) == "Quantity" and r.value.args
-                 and ast.unparse(r.value.args[0]) == ps[1] for r in rets) and bool(rets)
+        ldefs = {n.targets[0].id: n.value for n in ast.walk(fi.node) if isinstance(n, ast.Assign) and len(n.targets) == 1 and isinstance(n.targets[0], ast.Name)}
+
+        def through(v: ast.AST) -> ast.AST:
+            return ldefs[v.id] if isinstance(v, ast.Name) and v.id in ldefs else v
+        ok = all(isinstance(through(r.value), ast.Call) and ast.unparse(through(r.value).func) == "Quantity" and through(r.value).args  # type: ignore[attr-defined]
+                 and ast.unparse(through(r.value).args[0]) == ps[1] for r in rets) and bool(rets) and ps[1] not in ldefs  # type: ignore[attr-defined]
         rep.check("R17.4", "quantity:passes-magnitude", ok, "the quantity callback does not pass the parsed magnitude through unchanged", fi.where())
 
     # R17.5
